@@ -155,12 +155,20 @@ void Format::formatDateTime( std::ostream& dest, const Field& field_def,
    // format date, time or timestamp
    auto const  use_format_str = field_def.mConstant.empty() ? format_str :
                                 field_def.mConstant.c_str();
-   char        timestamp_str[ 128];
+   // strftime() returns 0 when the buffer is too small (and then leaves its
+   // contents unspecified): the leading blank makes sure that a result that
+   // fits is never empty, so the buffer can simply grow until it is big enough
+   std::string const  blank_format_str( std::string( " ") + use_format_str);
+   std::string        timestamp_str( 128, '\0');
+   struct tm const*   broken_down = ::localtime( &timestamp);
+   size_t             len = 0;
 
 
-   ::strftime( timestamp_str, sizeof( timestamp_str) - 1, use_format_str,
-               ::localtime( &timestamp));
-   append( dest, field_def, timestamp_str);
+   while ((len = ::strftime( &timestamp_str[ 0], timestamp_str.size(),
+                             blank_format_str.c_str(), broken_down)) == 0)
+      timestamp_str.resize( timestamp_str.size() * 2);
+
+   append( dest, field_def, timestamp_str.substr( 1, len - 1));
 
 } // Format::formatDateTime
 
